@@ -62,6 +62,7 @@ fn expectation(r: &mut Rng, used: &mut Vec<String>) -> ClaimSpec {
             2 => ClaimSpec::Aud(ascii!(r, 1 + r.usize(8))),
             3 => ClaimSpec::Jti(ascii!(r, 1 + r.usize(8))),
             4 => ClaimSpec::Native { key: (*r.pick(&["uid", "n", "level"])).to_string(), val: NativeVal::I64(r.range(-5, 5) as i64) },
+            7 if r.chance(1, 2) => ClaimSpec::Native { key: (*r.pick(&["tenant", "opt", "unit"])).to_string(), val: if r.chance(1, 2) { NativeVal::OptStr(None) } else { NativeVal::Unit } },
             6 if r.chance(1, 2) => ClaimSpec::CustomRef { key: (*r.pick(&[" role", "role ", "\trole", "ro le", "\u{a0}k", "k\n"])).to_string(), value: scalar(r) },
             5 => ClaimSpec::Iat(format!("20{:02}-0{}-1{}T0{}:00:00{}", 20 + r.below(10), 1 + r.below(9), r.below(9), r.below(9), *r.pick(&["Z", "+00:00", "-05:00"]))),
             _ => ClaimSpec::Custom { key: (*r.pick(&["role", "scope", "data", "k", "tenant", "Role", "a/b", "a~1b", "https://example.com/claims/seats", "x.y"])).to_string(), value: scalar(r) },
@@ -191,7 +192,7 @@ fn derive(r: &mut Rng, e: &[ClaimSpec], class: u64) -> Vec<ClaimSpec> {
                 }
             }
         }
-        _ => {
+        5 => {
             if !s.is_empty() {
                 let k = r.usize(s.len());
                 let c = s[k].clone();
@@ -200,6 +201,16 @@ fn derive(r: &mut Rng, e: &[ClaimSpec], class: u64) -> Vec<ClaimSpec> {
                 } else {
                     s[k] = ClaimSpec::Custom { key: c.key().to_string(), value: Value::Null };
                 }
+            }
+        }
+        _ => {
+            // the payload carries an array that CONTAINS the expected value (JWT-style multi-valued claim):
+            // JSON-equality says that is a different value
+            if !s.is_empty() {
+                let k = r.usize(s.len());
+                let c = s[k].clone();
+                let arr = if r.chance(1, 2) { json!([c.value(), "other"]) } else { json!([c.value()]) };
+                s[k] = ClaimSpec::Custom { key: c.key().to_string(), value: arr };
             }
         }
     }
@@ -265,7 +276,13 @@ fn gen(ctx: &GenCtx, i: u64, prop: &str) -> Option<Run> {
             (ClaimSpec::Iss(_), 0) => ClaimSpec::Iss("good".into()),
             _ => claim,
         };
-        let behaviour = match r.below(6) {
+        let claim = match (claim.key(), r.below(3)) {
+            // the documented way to name a registered claim for a validator
+            ("sub" | "aud" | "jti" | "iss", 0) => ClaimSpec::DefaultOf(claim.key().to_string()),
+            _ => claim,
+        };
+        let behaviour = match r.below(7) {
+            6 => Behaviour::RejectAs((*r.pick(&["Unexpected", "Invalid", "Missing", "Expired", "RFC3339Date", "UseBeforeAvailable", "Reserved", "DuplicateTopLevelPayloadClaim"])).to_string()),
             0 => Behaviour::Reject,
             1 | 2 => Behaviour::ExpectEq(match r.below(3) {
                 0 => json!("good"),
@@ -301,11 +318,11 @@ fn gen(ctx: &GenCtx, i: u64, prop: &str) -> Option<Run> {
     let ntok = if slow { 2 } else { 2 + r.usize(5) };
     let mut toks: Vec<TokenDesc> = vec![];
     for _ in 0..ntok {
-        let class = match r.below(10) {
+        let class = match r.below(11) {
             0..=3 => 0,
             x => x - 3,
         };
-        let mut claims = derive(&mut r, &expect, class.min(5));
+        let mut claims = derive(&mut r, &expect, class.min(6));
         // values the validators will look at
         for vs in &validators {
             let k = vs.claim.key().to_string();
@@ -328,7 +345,8 @@ fn gen(ctx: &GenCtx, i: u64, prop: &str) -> Option<Run> {
                 });
             }
         }
-        let ilayer = random_layer(&mut r);
+        let needs_core = claims.iter().any(|c| matches!(c, ClaimSpec::Custom { key, .. } if RESERVED.contains(&key.as_str())));
+        let ilayer = if needs_core { Layer::Core } else { random_layer(&mut r) };
         let mut payload = serde_json::Map::new();
         for c in &claims {
             payload.insert(c.key().to_string(), c.value());
